@@ -34,6 +34,8 @@ var baseAssumptions = []string{
 	"generated-input search: no claim about inputs that were not generated",
 }
 
+var toolAssumptions = append([]string{"the verif hook in update-wordlist only redirects the tool's HTTP fetches to a local server; formatting of the output is not compared (the Makefile runs goimports afterwards); CRLF files and words containing characters html/template escapes are outside the property's domain"}, baseAssumptions...)
+
 var regress = job{name: "regress", run: "^TestRegress$"}
 
 var props = map[string]*prop{
@@ -59,10 +61,40 @@ var props = map[string]*prop{
 		level: "exploration",
 		jobs: []job{
 			regress,
-			{name: "scan", run: "^TestC03_Scan$", shards: [2]int{4, 16}, checks: [2]int{40, 700}},
-			{name: "mutated", run: "^TestC03_Mutated$", shards: [2]int{4, 16}, checks: [2]int{8000, 400000}},
+			{name: "scan", run: "^TestC03_Scan$", shards: [2]int{4, 16}, checks: [2]int{40, 250}},
+			{name: "mutated", run: "^TestC03_Mutated$", shards: [2]int{4, 16}, checks: [2]int{8000, 120000}},
+			{name: "fuzz-seeds", run: "^FuzzC03$"},
+			{name: "fuzz", fuzz: "FuzzC03", thoroughOnly: true, fuzzTime: [2]time.Duration{0, 120 * time.Second}, weight: 16},
 		},
 		assumptions: baseAssumptions,
+	},
+	"C12": {
+		level: "exploration",
+		jobs: []job{
+			{name: "regress", run: "^TestRegress$", race: true},
+			{name: "plans", run: "^TestC12_Plans$", shards: [2]int{16, 16}, checks: [2]int{15, 1800}, race: true},
+		},
+		assumptions: append([]string{"the Go race detector (happens-before monitor) reports every unsynchronised pair of accesses that a run executes; schedules are sampled, not enumerated"}, baseAssumptions...),
+	},
+	"C13": {
+		level: "exploration", exhaustive: false,
+		jobs: []job{
+			regress,
+			{name: "pairs", run: "^TestC13_Pairs$", shards: [2]int{8, 16}},
+			{name: "histories", run: "^TestC13_Histories$", shards: [2]int{8, 16}, checks: [2]int{40, 3000}},
+		},
+		assumptions: baseAssumptions,
+	},
+	"C14": {
+		level: "exploration",
+		jobs: []job{
+			regress,
+			{name: "grid", run: "^TestC14_Grid$", shards: [2]int{4, 16}},
+			{name: "random", run: "^TestC14_Random$", shards: [2]int{4, 16}, checks: [2]int{6000, 200000}},
+			{name: "fuzz-seeds", run: "^FuzzC14$"},
+			{name: "fuzz", fuzz: "FuzzC14", thoroughOnly: true, fuzzTime: [2]time.Duration{0, 120 * time.Second}, weight: 16},
+		},
+		assumptions: append([]string{"a hang is decided up to a 120 s bound per call on inputs <= 4 MiB (expected: milliseconds)"}, baseAssumptions...),
 	},
 	"C15": {
 		level: "exploration",
@@ -107,6 +139,24 @@ var props = map[string]*prop{
 		},
 		assumptions: baseAssumptions,
 	},
+	"C06": {
+		level: "fault_enumeration", exhaustive: true,
+		jobs: []job{
+			regress,
+			{name: "grid", run: "^TestC06_Grid$", shards: [2]int{2, 8}},
+			{name: "random", run: "^TestC06_Random$", shards: [2]int{2, 16}, checks: [2]int{10000, 200000}},
+		},
+		assumptions: baseAssumptions,
+	},
+	"C07": {
+		level: "exploration",
+		jobs: []job{
+			regress,
+			{name: "children", run: "^TestC07_Children$", shards: [2]int{8, 16}, checks: [2]int{30, 1500}},
+			{name: "inprocess", run: "^TestC07_InProcess$"},
+		},
+		assumptions: append([]string{"crypto/rand.Reader is the operating-system CSPRNG; randomness quality is not established by sampling: the claim rests on interface identity plus byte-exact use of the source"}, baseAssumptions...),
+	},
 	"C08": {
 		level: "exploration", exhaustive: true,
 		jobs: []job{
@@ -124,6 +174,14 @@ var props = map[string]*prop{
 			{name: "random", run: "^TestC09_Random$", shards: [2]int{1, 16}, checks: [2]int{20000, 300000}},
 		},
 		assumptions: baseAssumptions,
+	},
+	"C17": {
+		level: "exploration",
+		jobs: []job{
+			{name: "regress", run: "^TestRegress$", tool: true},
+			{name: "tool", run: "^TestC17_Tool$", shards: [2]int{8, 16}, checks: [2]int{12, 400}, tool: true},
+		},
+		assumptions: toolAssumptions,
 	},
 	"C16": {
 		level: "exploration", exhaustive: true,
